@@ -718,6 +718,7 @@ func rulesC16(w *World, r *Report) {
 				}
 			}
 		}
+		w.ruleZeroDescentImmediate(r, "C16.R2c a descent by type goes to the immediate element type", vw)
 		for _, k := range []string{"Slice", "Map"} {
 			r.add("C16.R2 absent containers are descended by type", "ExtractValue · empty "+k, w.pos(ev.Pos()), kinds[k], fmt.Sprintf("an empty %s recurses on reflect.New(element type)=%v", k, kinds[k]))
 		}
@@ -797,6 +798,7 @@ func rulesC16(w *World, r *Report) {
 	}
 	r.floor("C16.R3 nameMap updates", nP, 3)
 	w.ruleListNamesKeepWhole(r, "C16.R9 list wire names keep the whole Go name", building, 2)
+	w.ruleNameKeysHaveTypes(r, "C16.R10 every name-map key has a type-map entry", building)
 	// R3 converse: every type recorded under a wire name has that wire name in
 	// the name map — a nameMap[_] = w with the same term w in the same function,
 	// written on every path that writes typMap[w] (same block, or a block that
